@@ -19,7 +19,7 @@ FullOpts  == {Lim(-1, -1), Lim(1, -1), Lim(2, -1), Lim(-1, 1), Lim(-1, 2), Lim(1
 SmallOpts == {Lim(-1, -1), Lim(1, -1), Lim(-1, 2), Lim(2, 3)}
 Opts(d, k) == IF Tier = "quick" /\ (d = 3 \/ k = "cint") THEN SmallOpts ELSE FullOpts
 
-ArrPositions == {"req", "opt", "nullopt", "nullreq", "defreq", "defopt", "optdefault"}
+ArrPositions == {"req", "opt", "nullopt", "nullreq", "defreq", "defopt", "optdefault", "nulldef"}
 
 \* "cint": a primitive element with a constraint of its own ("its elements are validated by their own element
 \* schema"): integer with minimum 1
